@@ -14,6 +14,7 @@ import collections
 import itertools as it
 import locale
 import re
+from decimal import Decimal, ROUND_HALF_UP
 from enum import Enum
 from typing import Iterable, List
 
@@ -298,7 +299,8 @@ class TextFormat:
             return ''.join(t.token for t in tokenized_format.tokens)
 
     def _number_converter(self, number_value, tokenized: Tokenized):
-        number_value *= 100 ** tokenized.percents
+        # round half away from zero on the decimal value, as excel does
+        number_value = Decimal(repr(number_value)) * 100 ** tokenized.percents
         number_format = ''.join(
             t.token for t in tokenized.tokens if t.type == self.TokenType.NUMBER)
         thousands = self.thousands_format if tokenized.thousands else ''
@@ -306,10 +308,13 @@ class TextFormat:
         if tokenized.decimal:
             left_num_format, right_num_format = number_format.split('.', 1)
             decimals = len(right_num_format)
-            left_side, right_side = f'{number_value:#{thousands}.{decimals}f}'.split('.')
+            number_value = number_value.quantize(
+                Decimal(1).scaleb(-decimals), rounding=ROUND_HALF_UP)
+            left_side, right_side = f'{number_value:{thousands}.{decimals}f}.'.split('.')[:2]
             right_side = right_side.rstrip('0')
         else:
-            left_side = f'{int(round(number_value, 0)):{thousands}}'
+            number_value = number_value.quantize(Decimal(1), rounding=ROUND_HALF_UP)
+            left_side = f'{int(number_value):{thousands}}'
             right_side = None
         left_side = left_side.lstrip('0')
 
